@@ -82,8 +82,9 @@ def check(ctx):
               "outer sustain counts are `%s`" % got, oc[0])
     ctx.check(ast.unparse(kw["mode"]) == "RepeatMode.REPEAT", R, nest, "mode", "Nest repeats the inner block (REPEAT)",
               "Nest passes mode %s" % ast.unparse(kw["mode"]))
-    rcc = ast.unparse(kw.get("require_complete_crossing", ast.Constant(value=None)))
-    ctx.check(rcc == "outer_block.require_complete_crossing and inner_block.require_complete_crossing", R, nest, "rcc",
+    cst = [st for c, st in rn.calls_named("_create")][0]
+    rcc = str(rn.at(cst, kw.get("require_complete_crossing", ast.Constant(value=None))))
+    ctx.check(rcc == "(inner_block.require_complete_crossing and outer_block.require_complete_crossing)", R, nest, "rcc",
               "complete crossing required iff both blocks require it", "require_complete_crossing is `%s`" % rcc)
 
     # ---- copies
@@ -123,7 +124,7 @@ def check(ctx):
     R = "C25.align"
     mg = ctx.fn("cross_block:Merge.__init__")
     loops = [s for s in mg.node.body if isinstance(s, ast.For) and dotted(s.iter) == "blocks" and
-             any(call_attr(c) == "append" for c in ast.walk(s) if isinstance(c, ast.Call))]
+             any(call_attr(c) in ("append", "extend") for c in ast.walk(s) if isinstance(c, ast.Call))]
     ctx.require(len(loops) == 1, "%s: accumulation loop over blocks not found" % mg.fq)
     inner = {}
     for s in loops[0].body:
@@ -131,6 +132,10 @@ def check(ctx):
             for c in ast.walk(s):
                 if isinstance(c, ast.Call) and call_attr(c) == "append":
                     inner[dotted(c.func.value)] = dotted(s.iter)
+        elif isinstance(s, ast.Expr) and isinstance(s.value, ast.Call) and call_attr(s.value) == "extend" and len(s.value.args) == 1 and dotted(s.value.args[0]):
+            inner[dotted(s.value.func.value)] = dotted(s.value.args[0])
+        elif isinstance(s, ast.AugAssign) and isinstance(s.op, ast.Add) and dotted(s.value):
+            inner[dotted(s.target)] = dotted(s.value)
     want = {"crossings": "b.orig_crossings", "crossing_sustain_counts": "b.crossing_sustain_counts",
             "crossing_weights": "b.crossing_weights", "constraints": "b.orig_constraints", "design": "b.orig_design"}
     ctx.check(inner == want, R, mg, "Merge accumulation %s" % sorted(inner.items()),
